@@ -95,6 +95,7 @@ typedef struct VmState {
     int cop_in_fd;            /* Pipe to co-process stdin (-1 if none) */
     int cop_out_fd;           /* Pipe from co-process stdout (-1 if none) */
     int cop_pid;              /* Co-process PID (-1 if none) */
+    bool cop_was_ready;       /* a co-process has served this VM: no in-process fallback any more */
 
     /* Error info */
     VmResult last_error;
